@@ -45,7 +45,7 @@ def finding_key(op, impl, model):
     t = op.split(" ")
     k = "c02." + (t[1] if len(t) > 1 else "?")
     if impl.startswith(("panic", "oracle-fail", "nonterminating")):
-        k += ":" + impl.split(" ")[0][:80]
+        k += ":" + impl.split(" ")[0].split("@")[0][:80]   # the step number is not part of the key
     return k
 
 
